@@ -227,6 +227,13 @@ def _main(prop, tier, seed, args, scratch, t0):
                 s["examples"] = max(int(round(s["examples"] * sc)), min(int(s["examples"]), 10))
             if "budget_s" in s and "replay" not in s:
                 s["budget_s"] = max(float(s["budget_s"]) * sc, min(float(s["budget_s"]), 240.0))
+    if tier == "quick":
+        # Quick shards are bounded by their case counts; the wall-clock budget is only a guard for a loaded machine (JIT compilation
+        # slows down several-fold when other jobs compile at the same time), so it is generous.
+        qs = float(os.environ.get("VERIF_QUICK_BUDGET_SCALE", "2.0"))
+        for s in specs:
+            if "budget_s" in s and "replay" not in s:
+                s["budget_s"] = float(s["budget_s"]) * qs
     for i, s in enumerate(specs):
         s.setdefault("seed", shard_seed(seed, prop, i))
         s.setdefault("tier", tier)
